@@ -156,7 +156,7 @@ CLAIMS.update({
 # additions of the continuation round (DESIGN.md section 12): appended to the text / note of the property
 ADD_TEXT = {
  'C01': ' Continuation (Proofs/C01P.lean): a solver-free specification rayCross (signed crossings of the closed leftward ray, half-open rule) and, over R, PathSeg.winding s p = rayCross s.eval p 0 1 for EVERY line, quadratic and cubic and every point (no solver hypothesis left), pathWinding = sum of the crossing counts for every element list; split / degree-raise / reverse / same-eval invariance and the vertex/extremum-row rule (winding_join) as corollaries.',
- 'C04': ' Continuation (Proofs/C04C.lean): first coverage theorems joining the stroker model with the winding model: for one segment with butt caps the outline is the exact rectangle and pathWinding(outline, q) = 1 iff q projects into the open segment at distance < w/2 (else 0) for every q off the outline; the same for square caps on the extended rectangle; two segments with a bevel join: exact outlines for both turn directions, every point of the open rectangle of either segment has winding >= 1 and winding >= 0 everywhere.',
+ 'C04': ' Continuation (Proofs/C04C.lean): first coverage theorems joining the stroker model with the winding model: for one segment with butt caps the outline is the exact rectangle and pathWinding(outline, q) = 1 iff q projects into the open segment at distance < w/2 (else 0) for every q off the outline; the same for square caps on the extended rectangle; two segments with a bevel join: exact outlines for both turn directions, every point of the open rectangle of either segment has winding >= 1 and winding >= 0 everywhere. Proofs/C04R.lean: the geometry of round joins and caps over R (via C10A): every point of a round join/cap of a stroke of width w at tolerance t is at distance between w/2 and w/2 + t from the join point, start and end points exact, a contour with a round start cap returns to its MoveTo point, the outline of one segment with round caps lies in the band w/2 <= d <= w/2 + t around the segment. The band came out as w/2*(1+1/1000) first: a defect of the crate (round arcs ignored the stroke tolerance), repaired (e67c0c1) and the model/proofs re-done for the repaired code.',
  'C07': ' Continuation (Kurbo/PathMut.lean, Proofs/C07M.lean): the BezPath mutators (push/pop/truncate/extend/move_to/line_to/quad_to/curve_to/close_path/from_vec/apply_affine with their debug assertions) as a state machine tied to the crate on random histories; refinement to list operations, history-independence of segments/get_seg, exact panic conditions.',
  'C10': ' Continuation (Proofs/C10A.lean): arc_within_tolerance - for every circular arc and EVERY tolerance every point of every piece of Arc::append_iter is within T of the circle (before only R/T >= 13997), hence all rounded-rectangle corners and circle-segment arcs.',
  'C12': ' Continuation (Proofs/C12S.lean): the shape-image clause over R - (A*e).pts = A(e.pts) for ellipses and circles (the SVD as a statement about points), and arc_image_param: for det A != 0 and positive radii the point of A*arc at start\'+s*sweep\' is A applied to the point of arc at start+s*sweep for every real s (image traversed in the image direction).',
@@ -167,7 +167,7 @@ ADD_NOTE = {
  'C03': ' Second-tier translation (GenEquiv2): QuadBez::arclen is re-translated from the source on every run and proved equal to the hand-written model.',
  'C05': ' Second-tier translation (GenEquiv2): approx_parabola_integral, approx_parabola_inv_integral, determine_subdiv_t.',
  'C10': ' Second-tier translation (GenEquiv2): point_on_circle, rotate_pt, sample_ellipse, CircleSegment arcs, Affine::svd, Ellipse::{private_new,center,radii,radii_and_rotation}, RoundedRectRadii::{abs,clamp}.',
- 'C11': ' Second-tier translation (GenEquiv2): Triangle::{area,perimeter,bounding_box}, Circle::{area,perimeter,winding}, CircleSegment::{area,perimeter,winding}, Ellipse::{area,winding,bounding_box,radii}, Affine::svd.',
+ 'C11': ' Continuation (Kurbo/EllipsePerimeter.lean, Proofs/C11E.lean): Ellipse::perimeter (Kummer series, remainder bound, AGM loop) is in the model and agrees with the crate bit for bit incl. the AGM pass count; AGM invariants (c\' <= c/2, term\' <= term/2), an explicit pass bound for every accuracy > 0 (bounded work, C14), what the stopping rule guarantees, Kummer value/range scaling and the circle case; the known high-aspect finding is explained in exact arithmetic (division by the stale a_n instead of the AGM limit). Second-tier translation (GenEquiv2): Triangle::{area,perimeter,bounding_box}, Circle::{area,perimeter,winding}, CircleSegment::{area,perimeter,winding}, Ellipse::{area,winding,bounding_box,radii}, Affine::svd.',
  'C12': ' Second-tier translation (GenEquiv2): Affine::svd, Affine*Ellipse, Affine*Arc. Observation (theorem arc_image_mixed_radii, confirmed on the crate): an Arc whose radii have opposite signs is mapped to an arc traversed the wrong way - radii are magnitudes in the quantifier, documented only.',
  'C15': ' The hypothesis left in the quartic theorems: depressed_cubic_dominant returns a root of its cubic. Float cbrt of the model is now correctly rounded (as the crate\'s).',
  'C17': ' Second-tier translation (GenEquiv2): Line::crossing_point.',
